@@ -52,6 +52,19 @@ Definition gen_next (script : list Z) (g : gen_state) : option node * gen_state 
 Fixpoint set_nth {A} (n : nat) (x : A) (l : list A) : list A :=
   match l with [] => [] | y :: r => match n with O => x :: r | S n' => y :: set_nth n' x r end end.
 
+(* next(children) repeatedly while it yields scalars: the scalars passed over (in order), then the first container or exhaustion *)
+Fixpoint drain (fuel : nat) (script : list Z) (g : gen_state) (skipped : list node) : list node * option node * gen_state * list Z :=
+  match fuel with
+  | O => (skipped, None, g, script)
+  | S f =>
+      match gen_next script g with
+      | (None, g', script') => (skipped, None, g', script')
+      | (Some nd, g', script') =>
+          if is_container (snd nd) then (skipped, Some nd, g', script')
+          else drain f script' g' (skipped ++ [nd])
+      end
+  end.
+
 Fixpoint nd_loop (fuel : nat) (limit : nat) (script : list Z) (pend : pending) (acc : list node) : result (list node) :=
   match fuel with
   | O => OutOfFuel
@@ -64,14 +77,11 @@ Fixpoint nd_loop (fuel : nat) (limit : nat) (script : list Z) (pend : pending) (
           match nth_error pend idx with
           | None => Crash XIndexError
           | Some (g, depth) =>
-              match gen_next script1 g with
-              | (None, _, script2) => nd_loop f limit script2 (remove_nth idx pend) acc
-              | (Some nd, g', script2) =>
-                  let pend1 := set_nth idx (g', depth) pend in
-                  if is_container (snd nd) then
-                    if (limit <? depth)%nat then Err ERecursion None
-                    else nd_loop f limit script2 (pend1 ++ [(Unstarted nd, S depth)]) (nd :: acc)
-                  else nd_loop f limit script2 pend1 (nd :: acc)
+              match drain (S fuel) script1 g [] with
+              | (skipped, None, _, script2) => nd_loop f limit script2 (remove_nth idx pend) (rev skipped ++ acc)
+              | (skipped, Some nd, g', script2) =>
+                  if (limit <? depth)%nat then Err ERecursion None
+                  else nd_loop f limit script2 (set_nth idx (g', depth) pend ++ [(Unstarted nd, S depth)]) (nd :: rev skipped ++ acc)
               end
           end
       end
